@@ -205,24 +205,52 @@ struct SeqRun
     int64_t                       doa_step{0}; // writes of the current step that were dead on arrival
     uint64_t                      s_calls_step{0}; // insert/erase/lookup/clean calls made on S in the current step
 
-    Violation viol;
-    RunStats  st;
-    int       step_no{-1};
+    Violation   viol;  // the violation this run reports (focus property, or the first one without focus)
+    Violation   other; // first tolerated violation of another property
+    bool        stop{false};
+    std::string focus;
+    RunStats    st;
+    int         step_no{-1};
 
-    SeqRun(const SeqPlan& p, std::string* t) : plan(p), cfg(p.cfg), tr(traits_of(p.cfg.cont)), trace(t) {}
+    SeqRun(const SeqPlan& p, std::string* t, const std::string& f) : plan(p), cfg(p.cfg), tr(traits_of(p.cfg.cont)), trace(t), focus(f) {}
 
     // ---------------------------------------------------------------- util ----
-    void fail(std::initializer_list<const char*> props, const char* check, const std::string& detail)
+    // Records a failed check.  With a focus property set, a check that does not concern it is
+    // only counted: if the caller can adopt the observed state (`adoptable`) the run goes on so that
+    // later checks of the focus property are still reached, otherwise the run is abandoned.
+    // Returns true when the run must stop.
+    bool fail(std::initializer_list<const char*> props, const char* check, const std::string& detail, bool adoptable = false)
     {
-        if (viol.any())
-            return;
+        if (stop)
+            return true;
+        bool mine = focus.empty();
         for (auto p : props)
-            viol.props.insert(p);
-        viol.check  = check;
-        viol.detail = detail;
-        viol.step   = step_no;
+            if (focus == p)
+                mine = true;
+        if (mine)
+        {
+            for (auto p : props)
+                viol.props.insert(p);
+            viol.check  = check;
+            viol.detail = detail;
+            viol.step   = step_no;
+            stop        = true;
+            return true;
+        }
+        if (!other.any())
+        {
+            for (auto p : props)
+                other.props.insert(p);
+            other.check  = check;
+            other.detail = detail;
+            other.step   = step_no;
+        }
+        st.bump(std::string("tolerated.") + check);
+        if (!adoptable)
+            stop = true; // cut short by another property's violation
+        return stop;
     }
-    bool failed() const { return viol.any(); }
+    bool failed() const { return stop; }
     void eval(const char* prop) { st.counters[std::string("eval.") + prop]++; }
     void nt(const char* prop) { st.nontrivial.insert(prop); }
     void note(const Result& r)
@@ -331,41 +359,57 @@ struct SeqRun
                             " live=" + std::to_string(live.size()) + " cap=" + std::to_string(o.cap) + ")";
         if (tr.has_capacity)
         {
-            if (o.cap != (int64_t)cfg.capacity)
-                return fail({"C02"}, "observer.capacity", "capacity() != constructor argument" + where);
-            if (o.size > o.cap)
-                return fail({"C02"}, "observer.size_gt_capacity", "size() > capacity()" + where);
+            if (o.cap != (int64_t)cfg.capacity && fail({"C02"}, "observer.capacity", "capacity() != constructor argument" + where, true))
+                return;
+            if (o.size > o.cap && fail({"C02"}, "observer.size_gt_capacity", "size() > capacity()" + where, true))
+                return;
         }
-        if (o.size < 0)
-            return fail({"C02"}, "observer.size_negative", "size() wrapped" + where);
-        if (o.empty != (o.size == 0))
-            return fail({"C02"}, "observer.empty", "empty() disagrees with size()" + where);
+        if (o.size < 0 && fail({"C02"}, "observer.size_negative", "size() wrapped" + where, true))
+            return;
+        if (o.empty != (o.size == 0) && fail({"C02"}, "observer.empty", "empty() disagrees with size()" + where, true))
+            return;
         if (!is_ttl())
         {
-            if (o.size != (int64_t)live.size())
-                return fail({"C02"}, "observer.size_ne_live", "size() != number of keys a lookup finds" + where);
+            if (o.size != (int64_t)live.size() &&
+                fail({"C02"}, "observer.size_ne_live", "size() != number of keys a lookup finds" + where, true))
+                return;
         }
         else
         {
             if (o.size < (int64_t)live.size())
-                return fail({"C02"}, "observer.size_lt_live", "size() < number of live keys" + where);
-            int64_t z = o.size - (int64_t)live.size();
-            if (z > (int64_t)zomb.size() || z > z_prev + newly_expired)
-                return fail({"C02"}, "observer.size_gt_live_plus_expired",
-                            "size() exceeds live + expired-unremoved" + where + " z=" + std::to_string(z) +
-                                " z_prev=" + std::to_string(z_prev) + " newly=" + std::to_string(newly_expired));
-            // Entries written by this very step with a lifetime of zero are dead on arrival; the
-            // purge ran at the start of the call, so they may still be counted until the next call.
-            if (exact_live && z > doa_step)
             {
-                eval("C17");
-                return fail({"C02", "C17"}, "observer.purge_incomplete",
-                            "expired entries still counted right after a purging call" + where);
+                if (fail({"C02"}, "observer.size_lt_live", "size() < number of live keys" + where, true))
+                    return;
+                z_prev = newly_expired = 0;
             }
-            z_prev        = z;
-            newly_expired = 0;
-            if (z == 0)
-                zomb.clear();
+            else
+            {
+                int64_t z = o.size - (int64_t)live.size();
+                if ((z > (int64_t)zomb.size() || z > z_prev + newly_expired) &&
+                    fail({"C02"}, "observer.size_gt_live_plus_expired",
+                         "size() exceeds live + expired-unremoved" + where + " z=" + std::to_string(z) +
+                             " z_prev=" + std::to_string(z_prev) + " newly=" + std::to_string(newly_expired), true))
+                    return;
+                // Entries written by this very step with a lifetime of zero are dead on arrival; the
+                // purge ran at the start of the call, so they may still be counted until the next call.
+                if (exact_live && z > doa_step)
+                {
+                    eval("C17");
+                    // ut_map / ut_set promise an exact size() after every call (C02 and C17);
+                    // tlru / utlru promise it only after clean_expired_values() (C17)
+                    bool stop_now = tr.purge_every_call
+                                        ? fail({"C02", "C17"}, "observer.purge_incomplete",
+                                               "expired entries still counted right after a purging call" + where, true)
+                                        : fail({"C17"}, "observer.purge_incomplete",
+                                               "expired entries still counted right after clean_expired_values()" + where, true);
+                    if (stop_now)
+                        return;
+                }
+                z_prev        = z;
+                newly_expired = 0;
+                if (z == 0)
+                    zomb.clear();
+            }
         }
         if (any_removed)
             nt("C02");
@@ -387,20 +431,23 @@ struct SeqRun
         return f;
     }
 
+    // adoptable: the caller takes the observed value into the model
     void attribute_wrong_value(int k, uint32_t got, const char* where)
     {
         auto        it   = writes.find(got);
         std::string base = std::string(where) + ": key " + std::to_string(k) + " returned value " + std::to_string(got) +
                            " expected " + std::to_string(live[k].val);
         if (it == writes.end())
-            return fail({"C01"}, "lookup.unknown_value", base + " (never written)");
-        if (it->second.key != k)
-            return fail({"C01"}, "lookup.other_keys_value", base + " (written under key " + std::to_string(it->second.key) + ")");
-        if (!it->second.accepted)
-            return fail({"C09"}, "allow.rejected_write_visible", base + " (value of a rejected insert)");
-        if (live[k].last_write_update)
-            return fail({"C01", "C09"}, "lookup.stale_value", base + " (overwritten value, update did not replace it)");
-        return fail({"C01"}, "lookup.stale_value", base + " (older value of the same key)");
+            fail({"C01"}, "lookup.unknown_value", base + " (never written)", true);
+        else if (it->second.key != k)
+            fail({"C01"}, "lookup.other_keys_value", base + " (written under key " + std::to_string(it->second.key) + ")", true);
+        else if (!it->second.accepted)
+            fail({"C09"}, "allow.rejected_write_visible", base + " (value of a rejected insert)", true);
+        else if (live[k].last_write_update)
+            fail({"C01", "C09"}, "lookup.stale_value", base + " (overwritten value, update did not replace it)", true);
+        else
+            fail({"C01"}, "lookup.stale_value", base + " (older value of the same key)", true);
+        live[k].val = got;
     }
 
     void hit_on_dead(int k, const char* where)
@@ -412,14 +459,18 @@ struct SeqRun
         {
             auto rj = rejected_deadline.find(k);
             if (rj != rejected_deadline.end() && rj->second > now)
-                return fail({"C04", "C09"}, "ttl.expired_served_after_rejected_insert",
-                            base + "expired (a rejected insert extended its life)");
-            return fail({"C04"}, "ttl.expired_served", base + "its TTL elapsed at or before now=" + std::to_string(now));
+            {
+                fail({"C04", "C09"}, "ttl.expired_served_after_rejected_insert", base + "expired (a rejected insert extended its life)");
+                return;
+            }
+            fail({"C04"}, "ttl.expired_served", base + "its TTL elapsed at or before now=" + std::to_string(now));
+            return;
         }
         const char* w = why == Gone::never ? "never inserted" : why == Gone::erased ? "erased" : why == Gone::evicted ? "evicted" : "cleared";
         if (why == Gone::cleared)
-            return fail({"C01", "C20"}, "lookup.cleared_key_found", base + w);
-        return fail({"C01"}, "lookup.absent_key_found", base + w);
+            fail({"C01", "C20"}, "lookup.cleared_key_found", base + w);
+        else
+            fail({"C01"}, "lookup.absent_key_found", base + w);
     }
 
     // Probes every model-live key on S (and the same keys on R / D, comparing).
@@ -439,7 +490,8 @@ struct SeqRun
                 if (tr.has_values && f.val != kv.second.val)
                 {
                     attribute_wrong_value(k, f.val, phase);
-                    return missing;
+                    if (failed())
+                        return missing;
                 }
                 if (tr.has_uc)
                 {
@@ -449,10 +501,12 @@ struct SeqRun
                         std::string d = std::string(phase) + ": key " + std::to_string(k) + " use count " +
                                         std::to_string(f.count) + " expected " + std::to_string(kv.second.count);
                         if (cfg.cont == Cont::lfuda && aged_this_step)
-                            fail({"C14"}, "lfuda.count_after_aging", d);
+                            fail({"C14"}, "lfuda.count_after_aging", d, true);
                         else
-                            fail({"C11"}, "lfu.use_count", d);
-                        return missing;
+                            fail({"C11"}, "lfu.use_count", d, true);
+                        if (failed())
+                            return missing;
+                        kv.second.count = f.count;
                     }
                 }
                 if (recycled.count(k))
@@ -474,9 +528,13 @@ struct SeqRun
             Found g = quiet_find(*R, k);
             eval("C18");
             if (g.hit != f.hit || g.val != f.val || g.count != f.count)
-                return fail({"C18"}, "range.state_diverged",
-                            std::string(phase) + ": probe of key " + std::to_string(k) +
-                                " differs between range-driven and single-driven instance");
+            {
+                if (fail({"C18"}, "range.state_diverged",
+                         std::string(phase) + ": probe of key " + std::to_string(k) +
+                             " differs between range-driven and single-driven instance", true))
+                    return;
+                R.reset(); // diverged: stop comparing this twin
+            }
         }
         if (D)
         {
@@ -484,9 +542,13 @@ struct SeqRun
             eval("C20");
             nt("C20");
             if (g.hit != f.hit || g.val != f.val || g.count != f.count)
-                return fail({"C20"}, "clear.twin_probe",
-                            std::string(phase) + ": probe of key " + std::to_string(k) +
-                                " differs between cleared and freshly constructed instance");
+            {
+                if (fail({"C20"}, "clear.twin_probe",
+                         std::string(phase) + ": probe of key " + std::to_string(k) +
+                             " differs between cleared and freshly constructed instance", true))
+                    return;
+                D.reset();
+            }
         }
     }
 
@@ -506,7 +568,10 @@ struct SeqRun
             else
                 eval("C01");
             if (f.hit)
-                return hit_on_dead(k, phase);
+            {
+                hit_on_dead(k, phase);
+                return;
+            }
             twin_probe(k, f, phase);
             if (failed())
                 return;
@@ -520,8 +585,8 @@ struct SeqRun
         if (!is_ttl())
         {
             eval("C19");
-            if (o.size != before.size)
-                return fail({"C19", "C02"}, "probe.size_changed", "a peek / missing lookup changed size()");
+            if (o.size != before.size && fail({"C19", "C02"}, "probe.size_changed", "a peek / missing lookup changed size()", true))
+                return;
         }
         check_obs(o, "after-probe", false);
         if (failed())
@@ -536,22 +601,34 @@ struct SeqRun
             if (is_ttl())
             {
                 if (r.size < (int64_t)live.size() || (tr.has_capacity && r.size > (int64_t)cfg.capacity) || r.empty != (r.size == 0))
-                    return fail({"C18"}, "range.size_bounds",
-                                "size() of the range-driven instance (" + std::to_string(r.size) + ") outside [live, capacity]");
+                {
+                    if (fail({"C18"}, "range.size_bounds",
+                             "size() of the range-driven instance (" + std::to_string(r.size) + ") outside [live, capacity]", true))
+                        return;
+                    R.reset();
+                }
             }
             else if (r.size != o.size || r.empty != o.empty)
-                return fail({"C18"}, "range.size_diverged",
-                            "size() differs between range-driven (" + std::to_string(r.size) + ") and single-driven (" +
-                                std::to_string(o.size) + ") instance");
+            {
+                if (fail({"C18"}, "range.size_diverged",
+                         "size() differs between range-driven (" + std::to_string(r.size) + ") and single-driven (" +
+                             std::to_string(o.size) + ") instance", true))
+                    return;
+                R.reset();
+            }
         }
         if (D)
         {
             Obs d = read_obs(*D);
             eval("C20");
             if (d.size != o.size || d.empty != o.empty)
-                return fail({"C20"}, "clear.twin_size",
-                            "size() differs between cleared (" + std::to_string(o.size) + ") and fresh (" +
-                                std::to_string(d.size) + ") instance");
+            {
+                if (fail({"C20"}, "clear.twin_size",
+                         "size() differs between cleared (" + std::to_string(o.size) + ") and fresh (" +
+                             std::to_string(d.size) + ") instance", true))
+                    return;
+                D.reset();
+            }
         }
     }
 
@@ -576,9 +653,11 @@ struct SeqRun
                 nt(p);
                 for (auto& kv : L0)
                     if (kv.second.use < v.use)
-                        return fail({p}, "lru.victim",
-                                    "evicted key " + std::to_string(victim) + " but key " + std::to_string(kv.first) +
-                                        " was used less recently");
+                    {
+                        fail({p}, "lru.victim",
+                             "evicted key " + std::to_string(victim) + " but key " + std::to_string(kv.first) + " was used less recently", true);
+                        return;
+                    }
                 break;
             }
             case Policy::mru:
@@ -586,18 +665,22 @@ struct SeqRun
                 nt("C13");
                 for (auto& kv : L0)
                     if (kv.second.use > v.use)
-                        return fail({"C13"}, "mru.victim",
-                                    "evicted key " + std::to_string(victim) + " but key " + std::to_string(kv.first) +
-                                        " was used more recently");
+                    {
+                        fail({"C13"}, "mru.victim",
+                             "evicted key " + std::to_string(victim) + " but key " + std::to_string(kv.first) + " was used more recently", true);
+                        return;
+                    }
                 break;
             case Policy::fifo:
                 eval("C12");
                 nt("C12");
                 for (auto& kv : L0)
                     if (kv.second.ins < v.ins)
-                        return fail({"C12"}, "fifo.victim",
-                                    "evicted key " + std::to_string(victim) + " but key " + std::to_string(kv.first) +
-                                        " was inserted earlier");
+                    {
+                        fail({"C12"}, "fifo.victim",
+                             "evicted key " + std::to_string(victim) + " but key " + std::to_string(kv.first) + " was inserted earlier", true);
+                        return;
+                    }
                 break;
             case Policy::lfu:
             case Policy::lfuda:
@@ -608,10 +691,12 @@ struct SeqRun
                 nt(p);
                 for (auto& kv : L0)
                     if (kv.second.count < v.count)
-                        return fail({p}, da ? "lfuda.victim_after_aging" : "lfu.victim",
-                                    "evicted key " + std::to_string(victim) + " (count " + std::to_string(v.count) +
-                                        ") but key " + std::to_string(kv.first) + " has count " +
-                                        std::to_string(kv.second.count));
+                    {
+                        fail({p}, da ? "lfuda.victim_after_aging" : "lfu.victim",
+                             "evicted key " + std::to_string(victim) + " (count " + std::to_string(v.count) + ") but key " +
+                                 std::to_string(kv.first) + " has count " + std::to_string(kv.second.count), true);
+                        return;
+                    }
                 break;
             }
             case Policy::rr:
@@ -810,19 +895,23 @@ struct SeqRun
                 fail({"C01"}, "lookup.just_written_missing", "key " + std::to_string(k) + " missing right after a successful write");
             return res;
         }
+        // Whatever the verdicts below, the model adopts what was observed: the missing keys are gone.
+        auto adopt_missing = [&]() {
+            for (int m : missing)
+                if (live.count(m))
+                    remove_live(m, Gone::evicted);
+        };
 
         eval("C03");
         if (created && full)
         {
             nt("C03");
             st.bump("probe.full_insert");
-            if (o1.size != (int64_t)cfg.capacity)
-            {
+            if (o1.size != (int64_t)cfg.capacity &&
                 fail({"C03"}, "retention.full_insert_size",
-                     "insert of a new key into a full cache left size()=" + std::to_string(o1.size) +
-                         " != capacity " + std::to_string(cfg.capacity));
+                     "insert of a new key into a full cache left size()=" + std::to_string(o1.size) + " != capacity " +
+                         std::to_string(cfg.capacity), true))
                 return res;
-            }
             if (is_ttl() && z0 > 0)
             {
                 if (!L0.empty())
@@ -835,27 +924,39 @@ struct SeqRun
                 {
                     if (missing.size() > 1)
                         fail({"C16", "C03"}, "ttl.live_evicted_while_expired_resident",
-                             "full insert with " + std::to_string(z0) + " expired resident(s) removed live keys " + kstr(missing));
+                             "full insert with " + std::to_string(z0) + " expired resident(s) removed live keys " + kstr(missing), true);
                     else
                         fail({"C16"}, "ttl.live_evicted_while_expired_resident",
-                             "full insert with " + std::to_string(z0) + " expired resident(s) removed live key " + kstr(missing));
-                    return res;
+                             "full insert with " + std::to_string(z0) + " expired resident(s) removed live key " + kstr(missing), true);
+                    adopt_missing();
+                    if (failed())
+                        return res;
                 }
             }
             else
             {
                 if (missing.size() != 1)
                 {
-                    fail({"C03"}, "retention.full_insert_victims",
-                         "insert of a new key into a full cache removed " + std::to_string(missing.size()) +
-                             " live entries " + kstr(missing) + " (exactly one expected)");
-                    return res;
+                    if (tr.policy == Policy::rr)
+                        fail({"C03", "C15"}, "retention.full_insert_victims",
+                             "insert of a new key into a full cache removed " + std::to_string(missing.size()) +
+                                 " live entries " + kstr(missing) + " (exactly one expected)", true);
+                    else
+                        fail({"C03"}, "retention.full_insert_victims",
+                             "insert of a new key into a full cache removed " + std::to_string(missing.size()) +
+                                 " live entries " + kstr(missing) + " (exactly one expected)", true);
+                    adopt_missing();
+                    if (failed())
+                        return res;
                 }
-                int victim = *missing.begin();
-                victim_check(L0k, Lpre, victim);
-                remove_live(victim, Gone::evicted);
-                if (failed())
-                    return res;
+                else
+                {
+                    int victim = *missing.begin();
+                    victim_check(L0k, Lpre, victim);
+                    remove_live(victim, Gone::evicted);
+                    if (failed())
+                        return res;
+                }
             }
         }
         else
@@ -864,20 +965,20 @@ struct SeqRun
             {
                 fail({"C03"}, "retention.lost_on_nonevicting_insert",
                      std::string(created ? "insert into a non-full cache" : updated ? "update" : "rejected insert") +
-                         " removed live entries " + kstr(missing));
-                return res;
+                         " removed live entries " + kstr(missing), true);
+                adopt_missing();
+                if (failed())
+                    return res;
             }
-            if (!is_ttl())
+            else if (!is_ttl())
             {
                 eval("C02");
                 int64_t want = o0.size + (created ? 1 : 0);
-                if (o1.size != want)
-                {
+                if (o1.size != want &&
                     fail({"C02"}, "observer.size_after_insert",
                          "size() went " + std::to_string(o0.size) + " -> " + std::to_string(o1.size) + " on " +
-                             (created ? "insert of a new key" : "update / rejected insert"));
+                             (created ? "insert of a new key" : "update / rejected insert"), true))
                     return res;
-                }
             }
         }
         check_obs(o1, "after insert", tr.purge_every_call);
@@ -908,15 +1009,17 @@ struct SeqRun
             {
                 std::string d = "lookup of live key " + std::to_string(k) + " missed";
                 if (is_ttl())
-                    fail({"C05"}, "ttl.live_entry_missed", d + " (deadline " + std::to_string(e.deadline) + ", now " + std::to_string(now) + ")");
+                    fail({"C05"}, "ttl.live_entry_missed", d + " (deadline " + std::to_string(e.deadline) + ", now " + std::to_string(now) + ")", true);
                 else
-                    fail({"C03"}, "retention.live_entry_missed", d);
+                    fail({"C03"}, "retention.live_entry_missed", d, true);
+                // adopt: whether the entry is really gone is settled by the probe that follows
                 return f;
             }
             if (tr.has_values && f.val != e.val)
             {
                 attribute_wrong_value(k, f.val, "find");
-                return f;
+                if (failed())
+                    return f;
             }
             if (!peek)
             {
@@ -930,10 +1033,11 @@ struct SeqRun
                 nt("C11");
                 if (f.count != e.count)
                 {
-                    fail({"C11"}, "lfu.use_count_reported",
-                         "find_with_use_count(" + std::to_string(k) + ", peek=" + std::to_string(op.peek) + ") reported " +
-                             std::to_string(f.count) + " expected " + std::to_string(e.count));
-                    return f;
+                    if (fail({"C11"}, "lfu.use_count_reported",
+                             "find_with_use_count(" + std::to_string(k) + ", peek=" + std::to_string(op.peek) + ") reported " +
+                                 std::to_string(f.count) + " expected " + std::to_string(e.count), true))
+                        return f;
+                    e.count = f.count;
                 }
             }
             if (recycled.count(k))
@@ -1007,19 +1111,21 @@ struct SeqRun
         eval("C03");
         if (!missing.empty())
         {
-            fail({"C03"}, "retention.lost_on_erase", "erase(" + std::to_string(k) + ") removed other live entries " + kstr(missing));
-            return res;
+            fail({"C03"}, "retention.lost_on_erase", "erase(" + std::to_string(k) + ") removed other live entries " + kstr(missing), true);
+            for (int m : missing)
+                if (live.count(m))
+                    remove_live(m, Gone::evicted);
+            if (failed())
+                return res;
         }
-        if (!is_ttl())
+        else if (!is_ttl())
         {
             eval("C02");
             int64_t want = o0.size - ((res && isLive) ? 1 : 0);
-            if (o1.size != want)
-            {
+            if (o1.size != want &&
                 fail({"C02"}, "observer.size_after_erase",
-                     "size() went " + std::to_string(o0.size) + " -> " + std::to_string(o1.size) + " on erase returning " + std::to_string(res));
+                     "size() went " + std::to_string(o0.size) + " -> " + std::to_string(o1.size) + " on erase returning " + std::to_string(res), true))
                 return res;
-            }
         }
         check_obs(o1, "after erase", tr.purge_every_call);
         return res;
@@ -1164,7 +1270,7 @@ struct SeqRun
                 if (got != want)
                     fail({"C14"}, "lfuda.aged_count",
                          "dynamically_age() returned " + std::to_string(got) + " but " + std::to_string(want) +
-                             " resident entries were idle for longer than the tick");
+                             " resident entries were idle for longer than the tick", true);
                 break;
             }
             case OpKind::clean:
@@ -1184,18 +1290,18 @@ struct SeqRun
                 }
                 if (z0 >= 0 && (int64_t)got != z0)
                 {
-                    fail({"C17"}, "clean.count",
-                         "clean_expired_values() returned " + std::to_string(got) + " but " + std::to_string(z0) +
-                             " expired entries were resident");
-                    break;
+                    if (fail({"C17"}, "clean.count",
+                             "clean_expired_values() returned " + std::to_string(got) + " but " + std::to_string(z0) +
+                                 " expired entries were resident", true))
+                        break;
                 }
                 Obs o1 = read_obs(*S);
                 if (o1.size != (int64_t)live.size())
                 {
-                    fail({"C17"}, "clean.size_after",
-                         "after clean_expired_values() size()=" + std::to_string(o1.size) + " but " +
-                             std::to_string(live.size()) + " entries are live");
-                    break;
+                    if (fail({"C17"}, "clean.size_after",
+                             "after clean_expired_values() size()=" + std::to_string(o1.size) + " but " +
+                                 std::to_string(live.size()) + " entries are live", true))
+                        break;
                 }
                 check_obs(o1, "after clean", true);
                 break;
@@ -1288,9 +1394,12 @@ struct SeqRun
         eval("C20");
         nt("C20");
         if (d != sres)
-            fail({"C20"}, "clear.twin_result",
-                 std::string(op_name(op.kind)) + " returned " + result_str(sres) + " on the cleared instance but " +
-                     result_str(d) + " on a freshly constructed one");
+        {
+            if (!fail({"C20"}, "clear.twin_result",
+                      std::string(op_name(op.kind)) + " returned " + result_str(sres) + " on the cleared instance but " +
+                          result_str(d) + " on a freshly constructed one", true))
+                D.reset();
+        }
     }
 
     void run_step(const Step& stp)
@@ -1347,8 +1456,15 @@ struct SeqRun
                 return;
             eval("C05");
             if (!missing.empty())
-                return fail({"C05"}, "ttl.expired_early",
-                            "keys " + kstr(missing) + " vanished when only the clock moved (now " + std::to_string(now) + ")");
+            {
+                fail({"C05"}, "ttl.expired_early",
+                     "keys " + kstr(missing) + " vanished when only the clock moved (now " + std::to_string(now) + ")", true);
+                for (int m : missing)
+                    if (live.count(m))
+                        remove_live(m, Gone::expired);
+                if (failed())
+                    return;
+            }
         }
 
         // ---- prediction for the bare twin, on the state before the op
@@ -1393,9 +1509,13 @@ struct SeqRun
                 if (singles.size() > cfg.capacity && op.kind == OpKind::insert_range)
                     st.bump("probe.range_longer_than_capacity");
                 if (rr != cat)
-                    return fail({"C18"}, "range.result",
-                                std::string(op_name(op.kind)) + " returned " + result_str(rr) +
-                                    " but the same single operations in order return " + result_str(cat));
+                {
+                    if (fail({"C18"}, "range.result",
+                             std::string(op_name(op.kind)) + " returned " + result_str(rr) +
+                                 " but the same single operations in order return " + result_str(cat), true))
+                        return;
+                    R.reset();
+                }
                 rres = rr;
             }
             else
@@ -1416,9 +1536,13 @@ struct SeqRun
                 note(rr);
                 eval("C18");
                 if (rr != r && !(is_ttl() && op.kind == OpKind::clean))
-                    return fail({"C18"}, "range.later_result",
-                                std::string(op_name(op.kind)) + " returned " + result_str(rr) +
-                                    " on the range-driven instance but " + result_str(r) + " on the single-driven one");
+                {
+                    if (fail({"C18"}, "range.later_result",
+                             std::string(op_name(op.kind)) + " returned " + result_str(rr) +
+                                 " on the range-driven instance but " + result_str(r) + " on the single-driven one", true))
+                        return;
+                    R.reset();
+                }
             }
             rres = r;
         }
@@ -1461,9 +1585,13 @@ struct SeqRun
                     {
                         eval("C19");
                         if (br != rres)
-                            return fail({"C19"}, "noeffect.later_result",
-                                        std::string(op_name(op.kind)) + " returned " + result_str(rres) +
-                                            " after probes / no-effect calls but " + result_str(br) + " without them");
+                        {
+                            if (fail({"C19"}, "noeffect.later_result",
+                                     std::string(op_name(op.kind)) + " returned " + result_str(rres) +
+                                         " after probes / no-effect calls but " + result_str(br) + " without them", true))
+                                return;
+                            b_compare = false;
+                        }
                     }
                 }
             }
@@ -1482,7 +1610,10 @@ struct SeqRun
                 Found f = quiet_find(*S, k);
                 eval("C20");
                 if (f.hit)
-                    return fail({"C20", "C01"}, "clear.key_found", "key " + std::to_string(k) + " found right after clear()");
+                {
+                    fail({"C20", "C01"}, "clear.key_found", "key " + std::to_string(k) + " found right after clear()");
+                    return;
+                }
                 twin_probe(k, f, "after clear");
                 if (failed())
                     return;
@@ -1498,9 +1629,14 @@ struct SeqRun
         if (!missing.empty())
         {
             if (op.kind == OpKind::clean)
-                return fail({"C17", "C03"}, "clean.removed_live", "clean_expired_values() removed live entries " + kstr(missing));
-            return fail({"C03"}, "retention.lost",
-                        std::string(op_name(op.kind)) + " removed live entries " + kstr(missing));
+                fail({"C17", "C03"}, "clean.removed_live", "clean_expired_values() removed live entries " + kstr(missing), true);
+            else
+                fail({"C03"}, "retention.lost", std::string(op_name(op.kind)) + " removed live entries " + kstr(missing), true);
+            for (int m : missing)
+                if (live.count(m))
+                    remove_live(m, Gone::evicted);
+            if (failed())
+                return;
         }
         if (stp.probe_nonlive)
         {
@@ -1542,7 +1678,7 @@ struct SeqRun
         {
             fail({}, "harness.unsupported_config", "no instantiation for this key/value combination");
             sched::sim_thread(false);
-            return {viol, st};
+            return {viol, other, st};
         }
         if (any_range)
             R = fresh(cfg);
@@ -1591,17 +1727,17 @@ struct SeqRun
         else if (!recycled.empty())
             nt("C08");
         sched::sim_thread(false);
-        return {viol, st};
+        return {viol, other, st};
     }
 };
 
 } // namespace
 
-SeqOutcome run_seq(const SeqPlan& plan_in, std::string* trace)
+SeqOutcome run_seq(const SeqPlan& plan_in, std::string* trace, const std::string& focus)
 {
     SeqPlan plan = plan_in;
     plan.normalize();
-    SeqRun r(plan, trace);
+    SeqRun r(plan, trace, focus);
     return r.run();
 }
 
